@@ -51,6 +51,7 @@ def roundtrip_thunk(cls, with_rest=True):
         wire = ops.as_seq(wire)
         P.inputs['wire'] = wire
         k6(P, cls, obj, wire)
+        regions.exclude(P, obj, clause='K3')          # regions that concern the round trip only (K9 and K6 above still apply)
         if with_rest and cls.__name__ not in NOT_SELF_DELIMITING:
             rest, facts = V.base_seq('rest')
             for f in facts:
